@@ -101,25 +101,27 @@ def classify(line, impl):
     t = line.split()
     return t[0] + ":" + t[-1] + ":" + impl.split("@")[0].split(":")[0][:10]
 
-def cross_check(cases, impl):
-    """Transcripts of the six configurations, line by line: equal or a documented difference."""
+def cross_check(cases, impl, model):
+    """Transcripts of the six configurations, line by line: equal, or a documented difference.  A difference counts as
+    documented only where the model evaluated at that configuration predicts it as well (the model's cross-configuration
+    differences are exactly the documented ones: Props/C20.v), and has the documented form."""
     groups = {}
-    for line, res in zip(cases, impl):
+    for line, res, mod in zip(cases, impl, model):
         t = line.split()
-        groups.setdefault(" ".join(t[:-1]), {})[t[-1]] = res.split("\t")[0]
+        groups.setdefault(" ".join(t[:-1]), {})[t[-1]] = (res.split("\t")[0], mod.split("\t")[0])
     bad = []
     for key, per in groups.items():
-        present = {c: r for c, r in per.items() if r != "absent"}
+        present = {c: r for c, r in per.items() if r[0] != "absent"}
         if len(present) < 2: continue
         ref_c = "sh" if "sh" in present else sorted(present)[0]
-        ref = present[ref_c]
-        for c, r in present.items():
+        ref, ref_m = present[ref_c]
+        for c, (r, m) in present.items():
             if r == ref: continue
-            # documented: without alloc skipping may refuse nested indefinite containers (message error, any position)
-            if "a" not in c and "s" not in c and r.startswith("err:message"): continue
-            if "a" not in ref_c and "s" not in ref_c and ref.startswith("err:message"): continue
-            # documented: without half, half-precision items are a type error
-            if "h" not in c and r.startswith("err:type:f16"): continue
-            if "h" not in ref_c and ref.startswith("err:type:f16"): continue
+            def documented(cfg, res, mod):
+                if res != mod: return False          # not what the proved model predicts at this configuration
+                if "a" not in cfg and "s" not in cfg and res.startswith("err:message"): return True
+                if "h" not in cfg and res.startswith("err:type:f16"): return True
+                return False
+            if documented(c, r, m) or documented(ref_c, ref, ref_m): continue
             bad.append((key + " " + c, "configuration %r gives %s but %r gives %s" % (c, r, ref_c, ref)))
     return bad
